@@ -278,6 +278,19 @@ func describe(q *cypher.RegularQuery, params map[string]any) (Shape, string) {
 	return out, ""
 }
 
+// failedRender renders queries the emitter gives up on after having written something; errors are what is expected here.
+func failedRender() {
+	defer func() { _ = recover() }()
+	for _, bad := range [][]graph.Criteria{
+		{query.Where(query.And(query.Equals(query.NodeProperty("objectid"), "x"), query.Equals(query.NodeProperty(""), 1))), query.Returning(query.Node())},
+	} {
+		qb := queryNeo4j.NewQueryBuilder(query.SinglePartQuery(bad...))
+		if qb.Prepare() == nil {
+			_, _ = qb.Render()
+		}
+	}
+}
+
 // Shapes builds, renders, parses and describes every whole-query descriptor.
 func Shapes(args []string) {
 	fs := flag.NewFlagSet("front shapes", flag.ExitOnError)
@@ -289,6 +302,12 @@ func Shapes(args []string) {
 	for hid, s := range tr.ReadLines[Shape](*in) {
 		if hid%*stride != 0 {
 			continue
+		}
+		// history: every few queries a render that fails half way (an empty property name passes Prepare and makes the
+		// emitter fail after it has written part of the text) precedes the one that is checked - what a builder renders
+		// is a function of its model, not of what was rendered before
+		if hid%5 == 0 {
+			failedRender()
 		}
 		ev := map[string]any{"e": "c10q", "hid": hid, "expected": s, "built": false, "panic": false, "reparse_ok": false, "parsed": Shape{Ret: []string{}, Order: []orderKey{}, Upd: []string{}}, "text": "", "note": ""}
 		func() {
